@@ -139,6 +139,8 @@ type ECtx struct {
 	Join bool // inside a join condition: $left./$right. references allowed
 	Let  bool // let value: closed expression
 	Agg  bool // aggregate functions make sense (summarize)
+	// NoAgg: inside the argument of an aggregate: no (nested) aggregate calls.
+	NoAgg bool
 }
 
 func (g *G) leaf(ctx ECtx) Expr {
@@ -218,8 +220,14 @@ func (g *G) call(depth int, ctx ECtx) Expr {
 	k := g.n("callkind", 10)
 	if k < 6 {
 		name := pickFrom(g, "builtin", BuiltinNames)
-		if (name == "count" || name == "countif") && !ctx.Agg && g.Cfg.Compilable && g.n("aggoutside", 4) > 0 {
+		if (name == "count" || name == "countif") && (ctx.NoAgg || !ctx.Agg && g.Cfg.Compilable && g.n("aggoutside", 4) > 0) {
 			name = "isnull"
+		}
+		if name == "countif" {
+			// the argument of an aggregate holds no aggregate
+			inner := ctx
+			inner.NoAgg = true
+			sub = func() Expr { return g.Expr(depth-1, inner) }
 		}
 		ar := Builtins[name]
 		if !g.Cfg.Compilable && g.chance("wrongarity", 6) {
